@@ -192,6 +192,48 @@ def lanceroNext (c : LCfg) : LCfg :=
   | some e => afterReject c e
   | none => c
 
+/-! #### One `LanceroSource` object across calls
+
+The RPC server keeps one `LanceroSource` for its whole life; `PrepareChannels` runs again on it after every
+(re)configuration and after a failed or self-terminated start.  What survives between calls: the numbering
+parameters (changed by a size rejection) and the slice `groupKeysSorted`, which an accepted call re-initialises
+(`ls.groupKeysSorted = make([]GroupIndex, 0)`) before appending one group per column. -/
+
+structure LObj where
+  cfg : LCfg
+  groups : List Group       -- `ls.groupKeysSorted` as the previous calls left it
+deriving DecidableEq, Repr
+
+/-- `PrepareChannels` on the object -/
+def lanceroObjPrepare (o : LObj) : LObj × Option Tables :=
+  match lanceroValidate o.cfg with
+  | some e => ({ o with cfg := afterReject o.cfg e }, none)      -- returns before any table is touched
+  | none =>
+    let kept : List Group := []                                   -- the re-initialisation
+    let t := lanceroTables o.cfg
+    let t' : Tables := { t with groups := kept ++ t.groups }
+    ({ o with groups := t'.groups }, some t')
+
+inductive LStep where
+  | configure (c : LCfg)     -- Configure + Sample (new active cards, geometry, numbering parameters), then PrepareChannels
+  | retry                    -- PrepareChannels again
+deriving Repr
+
+def lanceroObjStep (o : LObj) : LStep → LObj × Option Tables
+  | .configure c => lanceroObjPrepare { o with cfg := c }
+  | .retry => lanceroObjPrepare o
+
+/-- the configuration a step's call sees -/
+def lanceroStepCfg (o : LObj) : LStep → LCfg
+  | .configure c => c
+  | .retry => o.cfg
+
+def lanceroRun (o : LObj) : List LStep → List (Option Tables)
+  | [] => []
+  | s :: ss => (lanceroObjStep o s).2 :: lanceroRun (lanceroObjStep o s).1 ss
+
+def LObj.fresh : LObj := { cfg := { firstRow := 0, sepCards := 0, sepCols := 0, devs := [] }, groups := [] }
+
 /-- the true geometry of stream positions: (row, col, rows, cols), one entry per pixel -/
 def devGeom (d : Dev) : List (Nat × Nat × Nat × Nat) :=
   (List.range d.ncols).flatMap fun col => (List.range d.nrows).map fun row => (row, col, d.nrows, d.ncols)
@@ -223,6 +265,10 @@ def dedupAdj : List Int → List Int
 /-- the two lists have the same set of values -/
 def sameSet (a b : List Int) : Bool :=
   dedupAdj (a.mergeSort (fun x y => decide (x ≤ y))) == dedupAdj (b.mergeSort (fun x y => decide (x ≤ y)))
+
+/-- the two lists hold the same values the same number of times -/
+def sameBag (a b : List Int) : Bool :=
+  a.mergeSort (fun x y => decide (x ≤ y)) == b.mergeSort (fun x y => decide (x ≤ y))
 
 /-! ### Abaco -/
 
@@ -368,8 +414,10 @@ def chkTables (tdm : Bool) (geom : List (Nat × Nat × Nat × Nat)) (t : Tables)
   else if !dupFree pix then some .numberCollision
   -- each stream has its own name
   else if !dupFree (t.streams.map fun s => (encName s.name : Int)) then some .nameCollision
-  -- the reported groups cover exactly the channel numbers in use
-  else if !sameSet pix (allChans t.groups) then some .groupsCover
+  -- the reported groups cover exactly the channel numbers in use: every number in use lies in exactly one
+  -- reported group and no group has a member that is not in use (the members of all groups, with
+  -- multiplicity, are a rearrangement of the numbers in use)
+  else if !sameBag pix (allChans t.groups) then some .groupsCover
   -- the row/column codes decode to the true geometry
   else if dec ≠ (if tdm then dup2 geom else geom) then some .geometry
   else none
@@ -393,7 +441,7 @@ def Bad.sig : Bad → String
   | .partners => "C19:partners an error/feedback pair does not share one channel number"
   | .numberCollision => "C19:number-collision two different (card,column,row) got the same channel number in an accepted configuration"
   | .nameCollision => "C19:name-collision two streams share a name (and so an output file name)"
-  | .groupsCover => "C19:groups-cover the reported channel groups do not cover exactly the channel numbers in use"
+  | .groupsCover => "C19:groups-cover the reported channel groups do not cover exactly the channel numbers in use (a number in no group, in two groups, or a group member not in use)"
   | .geometry => "C19:rccode-geometry a row/column code does not decode to the true geometry although every dimension fits 16 bits"
   | .fileCollision => "C19:filename-collision two output files share a name"
   | .headerIdentity => "C19:header-identity file header identity differs from the reported tables"
@@ -489,11 +537,11 @@ def pDev : P Dev := do
   pure { devnum := d, ncols := nc, nrows := nr }
 
 /-- judge one reported result against the oracle and the model -/
-def judge (inp : Input) (res : RRes) (what : String) : Except Verdict (Option Tables) :=
+def judge (inp : Input) (mres : Option Tables) (res : RRes) (what : String) : Except Verdict (Option Tables) :=
   match res with
   | .panic => .error (.viol s!"C19:panic the real code panicked ({what})")
   | .rejected =>
-    match inp.model with
+    match mres with
     | none => .ok none
     | some _ => .error (.diff s!"{what}: implementation rejected, model accepts")
   | .tables o =>
@@ -504,9 +552,9 @@ def judge (inp : Input) (res : RRes) (what : String) : Except Verdict (Option Ta
       -- a dimension beyond 16 bits is the recorded finding; a wrong code within the limits is not
       if inp.fits16 then .error (.viol (Bad.sig .geometry))
       else .error (.viol "C19:rccode-overflow16 a dimension above 65535 does not fit the 16-bit fields of the row/column code: it decodes to the wrong geometry")
-    | some b => .error (.viol b.sig)
+    | some b => .error (.viol (b.sig ++ s!" [{what}]"))
     | none =>
-      match inp.model with
+      match mres with
       | none => .error (.diff s!"{what}: implementation accepted, model rejects")
       | some m =>
         if m.nchan ≠ t.nchan then .error (.diff s!"{what}: nchan model {m.nchan} impl {t.nchan}")
@@ -554,78 +602,105 @@ def lanceroTags (c : LCfg) (t1 t2 : Option Tables) : List String :=
   (if t1.isNone ∧ t2.isSome then ["retry-accepted"] else []) ++
   sizeTag t1
 
+/-- one step of a history on one source object -/
+inductive HStep where
+  | l (s : LStep)
+  | other (inp : Input)
+deriving Repr
+
+open P in
+def pLCfg : P LCfg := do
+  let fr ← int; let sc ← int; let sl ← int
+  let devs ← list pDev
+  pure { firstRow := fr, sepCards := sc, sepCols := sl, devs }
+
+open P in
+def pHStep : P HStep := do
+  let k ← tok
+  match k with
+  | "L" => do let c ← pLCfg; pure (.l (.configure c))
+  | "Y" => pure (.l .retry)
+  | "A" => do let prods ← list (list pGroup); pure (.other (.abaco prods.flatten))
+  | "S" => do let _kind ← nat; let n ← int; pure (.other (.generic n))
+  | "R" => do let n ← nat; pure (.other (.roach n))
+  | _ => fail s!"bad step {k}"
+
+/-- run a history through the model and judge the implementation's result after EVERY step;
+returns the inputs and accepted tables per step -/
+def judgeHistory : LObj → Nat → List HStep → List RRes → Except Verdict (List (Input × Option Tables))
+  | _, _, [], _ => .ok []
+  | _, _, _ :: _, [] => .error (.bad "fewer results than steps")
+  | o, k, st :: sts, r :: rs =>
+    let (o', inp, m) : LObj × Input × Option Tables := match st with
+      | .l ls => ((lanceroObjStep o ls).1, .lancero (lanceroStepCfg o ls), (lanceroObjStep o ls).2)
+      | .other i => (o, i, i.model)
+    match judge inp m r s!"step {k + 1}" with
+    | .error v => .error v
+    | .ok t =>
+      match judgeHistory o' (k + 1) sts rs with
+      | .error v => .error v
+      | .ok rest => .ok ((inp, t) :: rest)
+
+def historyTags (steps : List (Input × Option Tables)) : List String :=
+  let acc := steps.filterMap (·.2)
+  let groupsChange := (acc.zip acc.tail).any fun (a, b) => a.groups != b.groups
+  let sameAgain := (acc.zip acc.tail).any fun (a, b) => a.groups == b.groups && !a.groups.isEmpty
+  (if groupsChange then ["regroup"] else []) ++ (if sameAgain then ["reprepare-same"] else []) ++
+  (if steps.any (·.2.isNone) ∧ acc.length ≥ 1 then ["reject-between"] else [])
+
+def kindTags (inp : Input) (t : Option Tables) : List String :=
+  match inp with
+  | .lancero c => ["lancero"] ++ lanceroTags c t none
+  | .abaco p =>
+    ["abaco"] ++ (if (abacoKeys p).length > 1 then ["multigroup"] else []) ++
+    (if t.isNone then ["would-collide", "rej-overlap"] else ["accepted"]) ++
+    (if (abacoKeys p) ≠ sortG (abacoKeys p) then ["keys-unsorted"] else []) ++ sizeTag t
+  | .generic _ => ["generic"] ++ (if t.isNone then ["rejected-safe"] else ["accepted"]) ++ sizeTag t
+  | .roach _ => ["roach"] ++ (if t.isNone then ["rejected-safe"] else ["accepted"]) ++ sizeTag t
+
 def runLine (ts : List String) : Verdict :=
-  let p : P (Input × List RRes × RFiles) := do
-    let k ← P.tok
-    match k with
-    | "L" => do
-      let fr ← P.int; let sc ← P.int; let sl ← P.int
-      let devs ← P.list pDev
-      let _start ← P.nat
-      P.kw "OUT"
-      let t ← P.peek
-      if t == some "PANIC" then
+  let p : P (List HStep × Bool × List RRes × RFiles) := do
+    let k ← P.peek
+    let (steps, hist) ← match k with
+      | some "H" => do
         let _ ← P.tok
-        pure (.lancero { firstRow := fr, sepCards := sc, sepCols := sl, devs }, [.panic], .none)
-      else
-        let r1 ← pRes
-        let r2 ← pRes
-        let f ← pFiles
-        pure (.lancero { firstRow := fr, sepCards := sc, sepCols := sl, devs }, [r1, r2], f)
-    | "A" => do
-      let prods ← P.list (P.list pGroup)
-      let _start ← P.nat
-      P.kw "OUT"
-      let r ← pRes
+        let ss ← P.list pHStep
+        pure (ss, true)
+      | some "L" => do
+        let s ← pHStep
+        pure ([s, HStep.l .retry], false)
+      | _ => do
+        let s ← pHStep
+        pure ([s], false)
+    let _start ← P.nat
+    P.kw "OUT"
+    let t ← P.peek
+    if t == some "PANIC" then
+      pure (steps, hist, [.panic], .none)
+    else
+      let rs ← P.rep pRes steps.length
       let f ← pFiles
-      pure (.abaco prods.flatten, [r], f)
-    | "S" => do
-      let _kind ← P.nat
-      let n ← P.int
-      let _start ← P.nat
-      P.kw "OUT"
-      let r ← pRes
-      let f ← pFiles
-      pure (.generic n, [r], f)
-    | "R" => do
-      let n ← P.nat
-      let _start ← P.nat
-      P.kw "OUT"
-      let r ← pRes
-      let f ← pFiles
-      pure (.roach n, [r], f)
-    | _ => P.fail s!"bad kind {k}"
+      pure (steps, hist, rs, f)
   match P.run p ts with
   | .error e => .bad e
-  | .ok (inp, ress, files) =>
-    match inp, ress with
-    | .lancero c, [r1, r2] =>
-      match judge (.lancero c) r1 "call 1" with
+  | .ok (steps, hist, ress, files) =>
+    match ress with
+    | [.panic] => .viol "C19:panic the real code panicked (prepare)"
+    | _ =>
+    match judgeHistory LObj.fresh 0 steps ress with
+    | .error v => v
+    | .ok js =>
+      match judgeFiles ((js.getLast?.map (·.2)).join) files with
       | .error v => v
-      | .ok t1 =>
-        let c2 := lanceroNext c
-        match judge (.lancero c2) r2 "call 2" with
-        | .error v => v
-        | .ok t2 =>
-          match judgeFiles t2 files with
-          | .error v => v
-          | .ok ft => .ok (["lancero"] ++ lanceroTags c t1 t2 ++ ft)
-    | inp, [r] =>
-      match judge inp r "prepare" with
-      | .error v => v
-      | .ok t =>
-        match judgeFiles t files with
-        | .error v => v
-        | .ok ft =>
-          let kind := match inp with
-            | .lancero _ => "lancero" | .abaco _ => "abaco" | .generic _ => "generic" | .roach _ => "roach"
-          let extra := match inp with
-            | .abaco p =>
-              (if (abacoKeys p).length > 1 then ["multigroup"] else []) ++
-              (if t.isNone then ["would-collide", "rej-overlap"] else ["accepted"]) ++
-              (if (abacoKeys p) ≠ sortG (abacoKeys p) then ["keys-unsorted"] else [])
-            | _ => if t.isNone then ["rejected-safe"] else ["accepted"]
-          .ok ([kind] ++ extra ++ sizeTag t ++ ft)
-    | _, _ => .bad "unexpected number of results"
+      | .ok ft =>
+        let first := match js with
+          | (inp, t) :: _ => kindTags inp t
+          | [] => []
+        let retry := match js with
+          | [(_, none), (_, some _)] => if hist then [] else ["retry-accepted"]
+          | _ => []
+        let later := if hist then (js.drop 1).flatMap (fun (inp, t) => (kindTags inp t).filter
+            (fun s => s == "would-collide" || s == "multi" || s == "cards-unordered")) else []
+        .ok ((first ++ retry ++ later ++ (if hist then ["history"] ++ historyTags js else []) ++ ft).eraseDups)
 
 end DastardV.C19
